@@ -80,7 +80,7 @@ class Register:
             storage=storage,
         )
         self.data = line.read(
-            factory(storage).read(file, self.IDENTIFIER_DIGITS + line.size)
+            factory(storage).read(file, line.size)
         )[1:]
         return True
 
